@@ -232,6 +232,7 @@ func c02CaseW(c *kit.Case, withRejected, bigGaps, widths bool) {
 	cfg := gen.RandomConfig(c.Rng, cell)
 	cfg.WithRejected = withRejected
 	cfg.BigGaps = bigGaps
+	cfg.LateClose = c.Index%3 == 1
 	if widths {
 		// offsets on both sides of 2^16 (2^24), 255/256 members of an object stream
 		cfg.MaxOps = 6 + c.Rng.Intn(20)
@@ -287,6 +288,7 @@ func c02CaseW(c *kit.Case, withRejected, bigGaps, widths bool) {
 	if withRejected {
 		prefix = "after-refused-call/"
 		c.R.Count("refused_calls", int64(d.Rejected))
+		c.R.Count("stream_writers_closed_again_later", int64(d.LateCloses))
 	}
 	c02ReadBack(c, d, prefix)
 	c.R.Seen("config-cells", cfg.Cell())
